@@ -38,7 +38,10 @@ func stateRegexBody(s *Scanner, c byte) *jerr.JApiError {
 	return nil
 }
 
-func stateRegexBodyAfterSlash(s *Scanner, _ byte) *jerr.JApiError {
+func stateRegexBodyAfterSlash(s *Scanner, c byte) *jerr.JApiError {
+	if c == EOF {
+		return s.japiErrorUnexpectedChar("inside the regular expression", "")
+	}
 	s.step = stateRegexBody
 	return nil
 }
